@@ -6,7 +6,7 @@ from vlint.terms import show, subterms
 from . import server
 
 GUARDED = ("::FrontendInternal", "::BackendInternal")
-KEEP = {"is_reply_for", "is_valid", "is_reply", "is_need_reply", "get_code", "get_size", "check_state",
+KEEP = {"take_single_file", "is_reply_for", "is_valid", "is_reply", "is_need_reply", "get_code", "get_size", "check_state",
         "recv_body", "recv_payload_into_buf", "recv_header", "recv_data", "recv_into_iovec_all"}
 
 
@@ -69,7 +69,8 @@ def acceptance(o, recv_call):
             while r1[0] in ("ref", "deref"):
                 r1 = r1[1]
             from_recv = any(server.same_call(s, recv_call) for s in subterms(r0) if s[0] == "call")
-            if from_recv and r1[0] == "param":
+            req_from_recv = any(server.same_call(s, recv_call) for s in subterms(r1) if s[0] == "call")
+            if from_recv and not req_from_recv:
                 res["reply_for"] = True
         if a[0] == "true" and a[1][0] == "call" and a[1][1] == "is_valid":
             x = a[1][2][0]
